@@ -322,6 +322,71 @@ def worker(case, led):
                     ok, what = False, f"applying the adjoint raised {type(e).__name__}: {e}"
                 led.check(ok, "post:Mpo.conj_trans:usable_adjoint", "Mpo.conj_trans", what, key + (str(q), "OtO"), fields, rep)
 
+    # ---- single product operators: bond dimension 1 everywhere, total charge zero, but non-zero labels on the bonds between the two sites (a hopping term), and neutral
+    #      one-site operators: products, label validity of the product, and the product used further (canonicalised, added to another state)
+    charged = [(op, ch, s) for op, ch, s in U.elem_ops(model) if any(ch)]
+    singles = []
+    for (o1, c1, s1) in charged:
+        for (o2, c2, s2) in charged:
+            if s1 != s2 and not np.any(np.asarray(c1) + np.asarray(c2)):
+                singles.append(o1 * o2 * 0.7)
+    rng.shuffle(singles)
+    neutral = [op for op, ch, s in U.elem_ops(model) if not any(ch)]
+    rng.shuffle(neutral)
+    for op in singles[:3] + neutral[:1]:
+        try:
+            O = Mpo(model, op)
+        except Exception:
+            continue
+        Od = U.dense_terms(model, [op])
+        key = (name, n, "single-product", repr(op))
+        rep = {"model": name, "nsites": n, "op": repr(op), "operator_bonds": list(O.bond_dims), "seed": seed}
+        fields = {"single_product_operator": True, "bond_dimension_one": bool(max(O.bond_dims) == 1)}
+        for q in sel:
+            a0 = U.make_state(model, q, 3, rng, complex_=bool(rng.integers(2)))
+            b0 = U.make_state(model, q, 2, rng)
+            if a0 is None or b0 is None:
+                continue
+            da, db = S.dense(a0), S.dense(b0)
+            if np.abs(Od @ da).max() <= 1e-12:
+                continue
+            try:
+                r = O.apply(a0)
+                led.check(close(S.dense(r), Od @ da) and not S.qnv_violations(r) and np.all(np.asarray(r.qntot).reshape(-1) == np.asarray(q).reshape(-1)),
+                          "post:Mpo.apply:single_product_operator", "Mpo.apply", f"O|a> wrong or labels invalid: {S.qnv_violations(r)[:1]}", key + (str(q), "apply"), fields, rep)
+                rc = r.copy().canonicalise().canonicalise()
+                led.check(close(S.dense(rc), Od @ da) and not S.qnv_violations(rc), "post:Mpo.apply:single_product_operator_then_canonicalise", "Mpo.apply",
+                          "O|a> changed when it was canonicalised", key + (str(q), "cano"), fields, rep)
+                sm = r.add(b0).canonicalise()
+                led.check(close(S.dense(sm), Od @ da + db), "post:Mpo.apply:single_product_operator_then_add", "MatrixProduct.add", "(O|a> + |b>) canonicalised differs from the dense sum",
+                          key + (str(q), "add"), fields, rep)
+                r2 = O.apply(a0, canonicalise=True)
+                led.check(close(S.dense(r2), Od @ da) and not S.qnv_violations(r2), "post:Mpo.apply:single_product_operator_canonicalise_flag", "Mpo.apply", "apply(canonicalise=True) wrong",
+                          key + (str(q), "flag"), fields, rep)
+            except Exception as e:
+                led.check(False, "post:Mpo.apply:single_product_operator_total", "Mpo.apply", f"raised {type(e).__name__}: {e}", key + (str(q), "total"), fields, rep)
+    # ---- bra-ket pairs (the correlation-function helper): <c_b B| O |c_k K> with the prefactors of both states, with and without an operator
+    from renormalizer.mps.mps import BraKetPair
+    for q in sel[:2]:
+        a0 = U.make_state(model, q, 3, rng, complex_=True)
+        b0 = U.make_state(model, q, 2, rng, complex_=True)
+        if a0 is None or b0 is None:
+            continue
+        da, db = S.dense(a0, with_coeff=False), S.dense(b0, with_coeff=False)
+        for cb, ck in ((0.6 + 0.8j, 1.0), (1.0, -0.5j), (0.3 - 1.1j, 2.0 + 0.5j)):
+            b1, a1 = b0.copy(), a0.copy()
+            b1.coeff, a1.coeff = cb, ck
+            key = (name, n, "braket", str(q), str(cb), str(ck))
+            rep = {"model": name, "nsites": n, "sector": q, "bra_prefactor": str(cb), "ket_prefactor": str(ck), "seed": seed}
+            for label, O_, Od_ in (("no-operator", None, None),) + ((("operator", H, Hd),) if terms else ()):
+                try:
+                    ft = BraKetPair(b1, a1, O_).ft
+                    ref = np.conj(cb) * ck * (np.vdot(db, da) if O_ is None else np.vdot(db, Od_ @ da))
+                    led.check(abs(ft - ref) <= TOL * max(1.0, abs(ref)), "post:BraKetPair.calc_ft:amplitude_with_both_prefactors", "BraKetPair.calc_ft",
+                              f"{label}: {ft} vs conj(c_b) c_k <B|O|K> = {ref}", key + (label,), {"operator": O_ is not None}, rep)
+                except Exception as e:
+                    led.check(False, "post:BraKetPair.calc_ft:total", "BraKetPair.calc_ft", f"{label}: raised {type(e).__name__}: {e}", key + (label,), {}, rep)
+
 
 def check(run):
     from props import C03_proof, C03_sym
